@@ -515,7 +515,7 @@ def c15(tier):
         os.environ['VERIF_CASE_CPU_S'] = '7200'      # one C15 case performs thousands of complete saves
         return V.generic_pbt('C15', tier, n_quick=48, n_thorough=1600, size_quick=40, size_thorough=70, level='fault_enumeration', floor=20, extra_cases=paths,
                              shards_quick=16, shards_thorough=16,
-                             assumptions=['faults: missing directory, path through a file, directory as target, read-only file (effective uid dropped), /dev/full, RLIMIT_FSIZE=k with SIGXFSZ ignored',
+                             assumptions=['faults: missing directory, path through a file, directory as target, read-only file (effective uid dropped), /dev/full, RLIMIT_FSIZE=k with SIGXFSZ ignored (persistent), RLIMIT_FSIZE=k lifted by the SIGXFSZ handler (one write refused, later ones accepted)',
                                           'objects whose output is <= 6000 bytes (thorough: 20000) get a failure injected at EVERY offset; larger ones every 97th (thorough 7th) byte plus block and stream-buffer boundaries +-1',
                                           'any std::exception counts as "reported"; the class is recorded in counters'],
                              extra_cov={'directed_objects': sorted(objs)})
